@@ -945,8 +945,35 @@ enum CacheState {
     Error(String),
 }
 
+/// Whether the client keeps the answer for endpoint E under the cache key `api/ribbit/E` (the key named in the
+/// property's anchors). The statement does not fix the key, so this is CALIBRATED once per run by observation
+/// (`calibrate_key_format`); when the client uses another key, the sub-checks that look into the cache directly
+/// (pre-loading, inspecting what a query stored) are skipped and counted — they would otherwise judge a key nobody uses.
+static KEY_FORMAT_KNOWN: std::sync::atomic::AtomicBool = std::sync::atomic::AtomicBool::new(false);
+
+fn cache_key(endpoint: &str) -> Option<String> {
+    if KEY_FORMAT_KNOWN.load(Ordering::Relaxed) { Some(format!("api/ribbit/{endpoint}")) } else { None }
+}
+
+async fn calibrate_key_format() -> Result<bool, String> {
+    let sc = Scenario { class: EpClass::Versions, https: HttpBeh::Valid(Shape::Plain), http: HttpBeh::Valid(Shape::Plain), tcp: TcpBeh::ValidV2(Shape::Plain), splits: vec![], uniq: 999_983, disk: false, rows: 2, opt: Opt::default() };
+    let rig = build_rig(&sc, Duration::from_secs(600), None).await?;
+    let client = new_client(&rig.cfg)?;
+    let ep = EpClass::Versions.endpoint();
+    let r = do_query(&client, ep).await;
+    let held = match client.cache().get(&format!("api/ribbit/{ep}")) {
+        Ok(Some(bytes)) => <BpsvDocument as CascFormat>::parse(&bytes).ok().map(|d| proj(&d)),
+        _ => None,
+    };
+    let known = matches!((&r, &held), (QR::Ok(p), Some(c)) if p == c);
+    drop(client);
+    drop(rig);
+    Ok(known)
+}
+
 fn cache_state(client: &RibbitTactClient, endpoint: &str) -> CacheState {
-    match client.cache().get(&format!("api/ribbit/{endpoint}")) {
+    let Some(key) = cache_key(endpoint) else { return CacheState::Error("cache key format not recognised: direct inspection skipped".into()) };
+    match client.cache().get(&key) {
         Ok(None) => CacheState::Absent,
         Ok(Some(bytes)) => match <BpsvDocument as CascFormat>::parse(&bytes) {
             Ok(d) => CacheState::Holds(proj(&d)),
@@ -1091,7 +1118,9 @@ async fn run_matrix_scenario(sc: &Scenario) -> Result<Observed, String> {
     let ep_string = sc.endpoint();
     let ep = ep_string.as_str();
     if sc.opt.poison {
-        client.cache().store_with_ttl(&format!("api/ribbit/{ep}"), POISON, Duration::from_secs(600)).map_err(|e| format!("harness: cannot pre-load the cache: {e}"))?;
+        if let Some(key) = cache_key(ep) {
+            client.cache().store_with_ttl(&key, POISON, Duration::from_secs(600)).map_err(|e| format!("harness: cannot pre-load the cache: {e}"))?;
+        }
     }
     let len_before = client.cache().len().ok();
     let files_before = dir.as_ref().map(|d| count_files(d.path()));
@@ -2146,6 +2175,16 @@ fn main() {
         }
     };
 
+    // ---- which cache key does the client use? (observed, not assumed; see KEY_FORMAT_KNOWN)
+    match rt.block_on(async { tokio::time::timeout(Duration::from_secs(60), calibrate_key_format()).await }) {
+        Ok(Ok(known)) => {
+            KEY_FORMAT_KNOWN.store(known, Ordering::Relaxed);
+            ctx.obs(if known { "cache.key_format.api/ribbit/<endpoint>(direct inspection on)" } else { "cache.key_format.not-recognised(direct inspection sub-checks skipped)" }, 1);
+        }
+        Ok(Err(e)) => ctx.inconclusive(&format!("cache key calibration: {e}")),
+        Err(_) => ctx.inconclusive("cache key calibration: watchdog (60 s)"),
+    }
+
     // ---- replay of one scenario
     if let Some(d) = ctx.replay_detail() {
         let scv = d.get("scenario").or_else(|| d.get("case").and_then(|c| c.get("scenario"))).cloned().unwrap_or(Value::Null);
@@ -2485,7 +2524,10 @@ fn main() {
         "direct.query", "direct.query_v1_mime", "direct.query_raw", "direct.query_tcp_only",
         "config.chain.https+tcp", "config.chain.http+tcp", "config.chain.tcp", "config.ribbit_url.host:port", "cache.preloaded_with_unparseable_bytes", "cache.after_failed_query.len_compared", "cache.after_failed_query.files_compared",
     ] {
-        if ctx.get_obs(k) == 0 {
+        // the three sub-workloads that look into the cache under the key `api/ribbit/<endpoint>` are skipped by design
+        // when the client was observed to use another key (KEY_FORMAT_KNOWN)
+        let needs_key = matches!(k, "cache.sync_context.store_then_query" | "cache.sync_context.query_then_get" | "cache.preloaded_with_unparseable_bytes");
+        if ctx.get_obs(k) == 0 && !(needs_key && !KEY_FORMAT_KNOWN.load(Ordering::Relaxed)) {
             ctx.inconclusive(&format!("a sub-workload the verdict relies on never ran or was never judged: {k}"));
         }
     }
